@@ -1,7 +1,8 @@
 #!/bin/bash
-# runs every registered check's quick command on /repo and summarises (development aid)
-cd /verif
+# runs every registered check's quick (or thorough) command on /repo and summarises (development aid); works from a snapshot too
+cd "$(dirname "$0")/.."
+T=${1:-quick}
 for p in $(python3 -c "import json;print(' '.join(c['property_id'] for c in json.load(open('MANIFEST.json'))['checks']))"); do
-  s=$(date +%s); ./check $p --tier ${1:-quick} > /tmp/all_$p.out 2>&1; rc=$?; e=$(date +%s)
-  echo "$p exit=$rc $((e-s))s $(grep -a '^== ' /tmp/all_$p.out | tail -1)"
+  s=$(date +%s); ./check $p --tier $T > /tmp/all_${T}_$p.out 2>&1; rc=$?; e=$(date +%s)
+  echo "$p exit=$rc $((e-s))s $(grep -a '^== ' /tmp/all_${T}_$p.out | tail -1)"
 done
